@@ -32,6 +32,12 @@ var ansiModes = []int{2, 4, 12, 20, 0, 7}
 
 type genr struct {
 	jobs   []emuh.Job
+	hypViol int
+	// sixelGuardOK: the size guard in front of the sixel decoder works (probed once with a payload
+	// on which the unguarded decoder panics recoverably). When it does not, payloads that would make
+	// the decoder allocate without bound (and kill this process) are not generated: the corpus case
+	// F105i reports the violation with a concrete input.
+	sixelGuardOK bool
 	r      *hx.Run
 	rng    *gen.Rng
 	hangs  int
@@ -245,6 +251,10 @@ func (g *genr) dcsOp() string {
 			d += gen.Pick(r, sixelFrags)
 		}
 	}
+	if !g.sixelGuardOK && fin == "q" && ni == 0 && np == 0 {
+		g.r.Count("dcs:payload-withheld-guard-ineffective")
+		d = "\"1;1;4;6#0;2;0;0;0#0~~~~"
+	}
 	op := "dcs " + hx.Hex(fin) + " " + fmt.Sprint(ni) + " " + fmt.Sprint(np) + " " + hx.Hex(d)
 	return op
 }
@@ -309,6 +319,7 @@ func (g *genr) flush() {
 						g.r.Count("dcs:sixel-decoder-error")
 					default:
 						// the hypothesis on the decoder (tame on payloads that pass the guard) is violated
+						g.hypViol++
 						g.r.Count("dcs:DECODER-CRASH-WITHIN-LIMIT")
 					}
 				}
@@ -364,6 +375,11 @@ func run(r *hx.Run) error {
 			}
 			return t.Apply(strings.Join(op, " "))
 		})
+	}
+	{
+		_, oc, _ := emuh.RunCase(4, 3, nil, []string{"dcs 71 0 0 " + hx.Hex("\"1;1;4294967296;4294967296")}, 0)
+		g.sixelGuardOK = oc == ""
+		r.Note("sixel_guard_effective", g.sixelGuardOK)
 	}
 	// 1. corpus
 	for ci, ops := range hx.Corpus("C05") {
@@ -450,9 +466,33 @@ func run(r *hx.Run) error {
 				if _, eof := seq.(ansi.EOF); eof {
 					break read
 				}
+				// hypotheses of the safety theorem about what the parser delivers (Props/C05Payload.lean
+				// `parameters_needed`), checked on the real parser's output
+				switch sq := seq.(type) {
+				case ansi.Print:
+					if sq.Width < 0 {
+						g.hypViol++
+						r.Count("hyp-VIOLATED:print-width-negative")
+					} else {
+						r.Count("hyp-ok:print-width>=0")
+					}
+				case ansi.CSI:
+					for _, pp := range sq.Parameters {
+						if len(pp) == 0 {
+							g.hypViol++
+							r.Count("hyp-VIOLATED:csi-parameter-without-value")
+						} else {
+							r.Count("hyp-ok:csi-parameter-has-value")
+						}
+					}
+				}
 				if d, isDcs := seq.(ansi.DCS); isDcs && d.Final == 'q' {
 					// sixel payloads go to the external decoder (go-sixel) behind the size guard
 					r.Count("fuzz:sixel")
+					if !g.sixelGuardOK {
+						r.Count("fuzz:sixel-withheld-guard-ineffective")
+						continue
+					}
 				}
 				seqs = append(seqs, emuh.OpLine(seq))
 			case <-timeout:
@@ -470,6 +510,7 @@ func run(r *hx.Run) error {
 		r.Count("case:rawfuzz")
 	}
 	g.flush()
+	r.Note("hypothesis_violations", g.hypViol)
 	r.Note("hangs", g.hangs)
 	r.Note("panics", g.panics)
 	return nil
